@@ -13,6 +13,14 @@ pub enum WeightRegime {
     Mixed,
     /// dyadic with zero-weight edges (distances only)
     ZeroDyadic,
+    /// ordinary shapes of numbers at the scale 1e-17: absolute tolerances see nothing here
+    Tiny,
+    /// pairs of weights that differ in the last bits (0.3 vs 0.1+0.2, 1 vs 1+ulp)
+    NearEqual,
+    /// 1e308-scale, f64::MAX/4, +inf, 1e-308 (container and count properties only)
+    Extreme,
+    /// weights of very different magnitude in one graph: 1, 1+ulp, 1e-17-scale, 2^24 and 2^24+1
+    MixedScale,
 }
 
 impl WeightRegime {
@@ -29,6 +37,10 @@ impl WeightRegime {
                     (1 + rng.below(16)) as f64 / 8.0
                 }
             }
+            WeightRegime::Tiny => (1 + rng.below(32)) as f64 / 8.0 * 1e-17,
+            WeightRegime::NearEqual => *rng.pick(&[0.3, 0.30000000000000004, 1.0, 1.0000000000000002, 0.7, 0.7000000000000001, 2.5, 0.1, 0.2, 0.09999999999999999]),
+            WeightRegime::MixedScale => *rng.pick(&[1.0, 1.0000000000000002, 1.0, 2.5e-17, 5e-17, 1e-17, 16777216.0, 16777217.0, 0.5, 1.00000001]),
+            WeightRegime::Extreme => *rng.pick(&[1e308, f64::MAX / 4.0, f64::INFINITY, 1.0, 1e-308, f64::MAX]),
             WeightRegime::Mixed => {
                 if rng.chance(1, 3) {
                     f64::NAN
@@ -62,11 +74,18 @@ pub struct HistOpts {
     pub names_max: usize,
     /// bias towards second edges on existing pairs (C03)
     pub dup_bias: u32,
+    /// a large universe (40-70 names), hubs of degree > 32 and batches of 64-100 edges
+    pub big: bool,
 }
 
 pub fn regime_any(rng: &mut Rng, allow_mixed: bool) -> WeightRegime {
-    let v = if allow_mixed {
-        vec![WeightRegime::AllNan, WeightRegime::Dyadic, WeightRegime::SmallInt, WeightRegime::Nasty, WeightRegime::Mixed]
+    regime_any2(rng, allow_mixed, false)
+}
+pub fn regime_any2(rng: &mut Rng, allow_mixed: bool, allow_extreme: bool) -> WeightRegime {
+    let v = if allow_mixed && allow_extreme {
+        vec![WeightRegime::AllNan, WeightRegime::Dyadic, WeightRegime::SmallInt, WeightRegime::Nasty, WeightRegime::Mixed, WeightRegime::Mixed, WeightRegime::NearEqual, WeightRegime::Tiny, WeightRegime::Extreme]
+    } else if allow_mixed {
+        vec![WeightRegime::AllNan, WeightRegime::Dyadic, WeightRegime::SmallInt, WeightRegime::Nasty, WeightRegime::Mixed, WeightRegime::Mixed, WeightRegime::NearEqual, WeightRegime::Tiny]
     } else {
         vec![WeightRegime::AllNan, WeightRegime::Dyadic, WeightRegime::SmallInt, WeightRegime::Nasty]
     };
@@ -195,6 +214,12 @@ impl<'a> HistGen<'a> {
     fn batch(&mut self) -> Vec<E> {
         let len = self.rng.range(0, 5);
         let mut v: Vec<E> = (0..len).map(|_| self.edge()).collect();
+        if len >= 1 && self.rng.chance(1, 6) {
+            // the very same edge value twice (a template edge added repeatedly)
+            let e = v[self.rng.below(v.len())].clone();
+            let at = self.rng.below(v.len() + 1);
+            v.insert(at, e);
+        }
         if self.rng.chance(1, 2) {
             let k = self.rng.below(len + 1);
             if let Some(e) = self.rejected_edge(&v[..k.min(v.len())]) {
@@ -211,6 +236,9 @@ impl<'a> HistGen<'a> {
 
 /// A lifecycle history; the model is run alongside so that generators can aim at the current state.
 pub fn gen_history(rng: &mut Rng, o: &HistOpts) -> Vec<Op> {
+    if o.big {
+        return gen_big_history(rng, o);
+    }
     let names = name_universe(rng, o.names_min, o.names_max);
     let len = hist_len(rng, o.max_ops);
     // swarm: op-mix weights for this run
@@ -288,6 +316,131 @@ pub fn gen_history(rng: &mut Rng, o: &HistOpts) -> Vec<Op> {
                 _ => Op::ToSingle,
             },
         };
+        let failed = g.model.apply(&op).is_err();
+        ops.push(op.clone());
+        if failed && matches!(op, Op::AddEdges(_)) && g.rng.chance(1, 3) {
+            // a failed batch is retried after the cause was (perhaps) removed: the same edge values again
+            if let Some(n) = g.unknown_name() {
+                let fix = Op::AddNode((n, None));
+                g.model.apply(&fix);
+                ops.push(fix);
+            }
+            g.model.apply(&op);
+            ops.push(op);
+        }
+    }
+    ops
+}
+
+/// Size thresholds are fault lines too: hubs with more than 32 neighbours, batches of 64-100 edges, a
+/// universe of 40-70 names whose insertion order is unrelated to their sort order, hubs inserted late.
+fn gen_big_history(rng: &mut Rng, o: &HistOpts) -> Vec<Op> {
+    let k = rng.range(40, 70);
+    let mut names: Vec<String> = (0..k).map(|i| format!("{}{}", ["h", "H", "n", "q"][i % 4], i)).collect();
+    rng.shuffle(&mut names);
+    let hubs: Vec<String> = (0..if rng.chance(2, 3) { 1 } else { 2 }).map(|_| rng.pick(&names).clone()).collect();
+    let mut g = HistGen { rng, names: names.clone(), regime: o.regime, token: 0, model: Model::new(o.specs), dup_bias: o.dup_bias };
+    let mut ops = vec![];
+    // some nodes first (always when missing nodes are an error), the hubs late in the list
+    let declare = o.specs.missing == Missing::Error || g.rng.chance(1, 2);
+    if declare {
+        let mut ns: Vec<String> = names.iter().filter(|n| !hubs.contains(n)).cloned().collect();
+        let keep = if o.specs.missing == Missing::Error { ns.len() } else { g.rng.range(0, ns.len()) };
+        ns.truncate(keep);
+        ns.extend(hubs.iter().cloned());
+        let op = Op::AddNodes(ns.into_iter().map(|n| (n, None)).collect());
+        g.model.apply(&op);
+        ops.push(op);
+    }
+    let batches = g.rng.range(1, 3);
+    for _ in 0..batches {
+        let len = g.rng.range(64, 100);
+        let mut v: Vec<E> = vec![];
+        for _ in 0..len {
+            let e = if g.rng.chance(2, 3) {
+                let h = g.rng.pick(&hubs).clone();
+                let x = g.any_name();
+                let w = g.weight();
+                if g.rng.chance(1, 2) {
+                    E { u: h, v: x, w: wbits(w), attr: g.tok() }
+                } else {
+                    E { u: x, v: h, w: wbits(w), attr: g.tok() }
+                }
+            } else {
+                g.edge()
+            };
+            v.push(e);
+        }
+        if !o.specs.multi && o.specs.dedupe == Dedupe::Error {
+            // under the rejecting duplicate policy an accidental duplicate would end the batch after a few
+            // edges: keep the pairs distinct so that hubs really reach a high degree, then place the rejected
+            // element late
+            let directed = o.specs.directed;
+            let mut seen: Vec<(String, String)> = g.model.edges.iter().map(|e| (e.u.clone(), e.v.clone())).collect();
+            v.retain(|e| {
+                let dup = seen.iter().any(|(a, b)| (a == &e.u && b == &e.v) || (!directed && a == &e.v && b == &e.u));
+                if !dup {
+                    seen.push((e.u.clone(), e.v.clone()));
+                }
+                !dup
+            });
+        }
+        if g.rng.chance(1, 2) && !v.is_empty() {
+            // a rejected element late in the batch, followed by edges naming nodes not seen before
+            let kpos = v.len() * 4 / 5 + g.rng.below(v.len() / 5 + 1);
+            let kpos = kpos.min(v.len());
+            // the model must see the prefix so that "duplicate of an existing pair" can aim at the hub's edges
+            let saved = g.model.clone();
+            for e in &v[..kpos] {
+                g.model.add_edge(e);
+            }
+            let rej = g.rejected_edge(&[]);
+            g.model = saved;
+            if let Some(e) = rej {
+                v.insert(kpos, e);
+            }
+        }
+        let op = if g.rng.chance(4, 5) { Op::AddEdges(v) } else { Op::AddEdgeTuples(v.into_iter().map(|e| (e.u, e.v)).collect()) };
+        let failed = g.model.apply(&op).is_err();
+        ops.push(op.clone());
+        if failed && g.rng.chance(1, 2) {
+            // the failed batch is retried (same edge values, hence the same Arcs) after a missing node was added
+            if let Some(n) = g.unknown_name() {
+                let fix = Op::AddNode((n, None));
+                g.model.apply(&fix);
+                ops.push(fix);
+            }
+            g.model.apply(&op);
+            ops.push(op);
+        }
+    }
+    // a short ordinary tail, biased to the hubs' existing pairs
+    for _ in 0..g.rng.range(2, 8) {
+        let op = match g.rng.below(if o.derived { 8 } else { 5 }) {
+            0 => Op::AddNode(g.node()),
+            1 => Op::AddEdges(g.batch()),
+            5 | 6 => {
+                // a selection that is a small fraction of the graph, around a hub half of the time
+                let k = g.rng.range(1, 6);
+                let mut s: Vec<String> = (0..k).map(|_| g.any_name()).collect();
+                if g.rng.chance(1, 2) {
+                    s.push(hubs[0].clone());
+                    let nb: Vec<String> = g.model.edges.iter().filter(|e| e.u == hubs[0] || e.v == hubs[0]).map(|e| if e.u == hubs[0] { e.v.clone() } else { e.u.clone() }).collect();
+                    for _ in 0..g.rng.range(0, 3) {
+                        if !nb.is_empty() {
+                            s.push(g.rng.pick(&nb).clone());
+                        }
+                    }
+                }
+                Op::Subgraph(s)
+            }
+            7 => match g.rng.below(3) {
+                0 => Op::Reverse,
+                1 => Op::ToSingle,
+                _ => Op::SetWeights(wbits(1.0)),
+            },
+            _ => Op::AddEdge(g.edge()),
+        };
         g.model.apply(&op);
         ops.push(op);
     }
@@ -310,6 +463,14 @@ pub enum Shape {
     Tree,
     Bipartite,
     NestedScc,
+    /// about 1.5 n random edges (for graphs of > 1000 nodes)
+    SparseRandom,
+    /// a chain of diamonds: 2^k equally long shortest paths across k diamonds
+    DiamondChain,
+    /// a hub joined to every node of a ring (hub degree n-1, every spoke in two triangles)
+    Wheel,
+    /// small cliques joined in a ring (several Louvain levels)
+    RingOfCliques,
 }
 pub const ALL_SHAPES: &[Shape] = &[Shape::Gnp, Shape::Path, Shape::Cycle, Shape::Star, Shape::Grid, Shape::Cliques, Shape::LayeredDag, Shape::Union, Shape::Tree, Shape::Bipartite, Shape::NestedScc];
 
@@ -471,6 +632,58 @@ pub fn shape_pairs(rng: &mut Rng, shape: Shape, n: usize, directed: bool) -> Vec
                 }
             }
         }
+        Shape::SparseRandom => {
+            let m = n + n / 2;
+            for _ in 0..m {
+                let (u, v) = (rng.below(n), rng.below(n));
+                if u != v {
+                    e.push((u, v));
+                }
+            }
+        }
+        Shape::DiamondChain => {
+            // s0 -> {a,b} -> s1 -> {a,b} -> s2 ... : three nodes per diamond
+            let mut i = 0;
+            while i + 3 < n {
+                e.push((i, i + 1));
+                e.push((i, i + 2));
+                e.push((i + 1, i + 3));
+                e.push((i + 2, i + 3));
+                i += 3;
+            }
+        }
+        Shape::Wheel => {
+            for i in 1..n {
+                e.push((0, i));
+                let j = if i + 1 < n { i + 1 } else { 1 };
+                if j != i {
+                    e.push((i, j));
+                }
+            }
+        }
+        Shape::RingOfCliques => {
+            let size = rng.range(3, 5);
+            let mut starts = vec![];
+            let mut lo = 0;
+            while lo < n {
+                let hi = (lo + size).min(n);
+                for u in lo..hi {
+                    for v in u + 1..hi {
+                        e.push((u, v));
+                    }
+                }
+                starts.push(lo);
+                lo = hi;
+            }
+            for w in 0..starts.len() {
+                let a = starts[w];
+                let b = starts[(w + 1) % starts.len()];
+                if a != b {
+                    e.push((a + (starts.get(w + 1).map(|x| x - a).unwrap_or(n - a)) - 1, b));
+                }
+            }
+            e.retain(|(u, v)| u != v && *u < n && *v < n);
+        }
         Shape::NestedScc => {
             // cycles sharing nodes, cycles of cycles, DAG edges and back edges
             let mut i = 0;
@@ -562,6 +775,22 @@ pub fn gen_graph(rng: &mut Rng, o: &GraphOpts) -> (Specs, Vec<Op>) {
 /// one of the 8 graph kinds
 pub fn kind_from(i: usize) -> (bool, bool, bool) {
     (i & 1 == 1, (i >> 1) & 1 == 1, (i >> 2) & 1 == 1)
+}
+
+/// pool size of an environment: mostly 1-16, now and then more workers than a small graph has nodes
+pub fn pool_size(seed: u64, i: usize) -> usize {
+    let mut s = seed ^ 0x706f_6f6c ^ (i as u64).wrapping_mul(0x9E37_79B9);
+    let x = crate::core::rng::splitmix(&mut s);
+    match x % 20 {
+        0 => [24usize, 32, 48, 64][(x / 20 % 4) as usize],
+        1..=4 => 1,
+        _ => 2 + (x / 20 % 15) as usize,
+    }
+}
+
+/// environments for a case: K keyings (keying 0 first), each with a seeded pool size and schedule seed
+pub fn envs(seed: u64, k: usize) -> Vec<crate::core::case::Env> {
+    keyings(seed, k).into_iter().enumerate().map(|(i, key)| crate::core::case::Env { keying: key, pool: pool_size(seed, i), sched: crate::core::rng::mix(seed, 0x5c4ed + i as u64) }).collect()
 }
 
 /// K keying seeds for a case: keying 0 first, the rest derived from the case seed
